@@ -29,6 +29,7 @@ from harness import serde_common as sc
 from harness.common import Ctx, Part, lean_batch, load_corpus, pmap
 
 THEOREMS = [
+    "IrVerif.Scope.C03_roundtrip",
     "IrVerif.Scope.C03_twice",
     "IrVerif.Scope.C03_pure",
 ]
@@ -491,6 +492,16 @@ def diff_case(part, out: dict, case, flags, world0, model, p1, err, m2) -> None:
         part.disagree("driver error: " + str(out["err"])[:200], case, out, None)
         return
     lenient = False
+    try:
+        core = sc.serializable_core(model.graph)
+    except RecursionError:
+        core = None
+    if core is not None and bool(out.get("serializable")) != core:
+        part.disagree("Serializable: Lean predicate and harness predicate differ", case, out.get("serializable"), core)
+    if sc.serializable_reason(model) is None and not out.get("serializable"):
+        part.disagree("oracle gate accepts a model outside the hypothesis of C03_roundtrip", case,
+                      out.get("serializable"), "serializable_reason=None")
+    part.count(f"lean_serializable={out.get('serializable')}")
     if p1 is None:
         if out.get("ser_ok"):
             r = sc.root_cause(err)
@@ -571,7 +582,7 @@ def run(ctx: Ctx) -> None:
     for obj in load_corpus("C03"):
         replay(ctx, obj)
     shards = 16
-    n = ctx.pick(1200, 20000) // shards
+    n = ctx.pick(2400, 24000) // shards
     seeds = [ctx.rng.randrange(2**62) for _ in range(shards)]
     for part in pmap(_worker, [(s, n) for s in seeds]):
         ctx.merge(part)
